@@ -2,7 +2,7 @@
    Statements only; proofs are `exact <lemma>` from Proofs/SerialProofs.v and Proofs/ConfigKeyProofs.v.
    Models: Model/Serial.v (to_simple/from_simple/to_json wire form, __reduce__ forms), Model/ConfigKey.v (Config keys). *)
 From Coq Require Import ZArith NArith List Bool String.
-From V Require Import Model.Serial Model.ConfigKey Proofs.SerialProofs Proofs.ConfigKeyProofs.
+From V Require Import Model.Serial Model.ConfigKey Proofs.SerialProofs Proofs.SerialProofsB Proofs.ConfigKeyProofs Proofs.ConfigKeyProofsB.
 Import ListNotations.
 
 (* ===== Timespan: JSON, YAML and pickle forms, including the canonical empty and the unbounded ends ===== *)
@@ -77,11 +77,63 @@ Theorem hash_preserved_ref : forall u a b,
 Proof. exact hash_preserved_ref_p. Qed.
 Print Assumptions hash_preserved_ref.
 
-(* ===== DataCoordinate: the faithful model loses None records in the full form (finding) ===== *)
-Theorem coord_null_record_refuted : exists u c c',
-  dec_coord u (enc_coord false c) = Some c' /\ record_state c "x" = 1%N /\ record_state c' "x" = 2%N.
-Proof. exact coord_null_record_refuted_p. Qed.
-Print Assumptions coord_null_record_refuted.
+(* ===== DimensionRecord ===== *)
+(* wf_rec u r: r has exactly the fields of its element's schema (slot order, unique names), each value of the declared
+   type, None only where nullable, timespans canonical *)
+Theorem dec_enc_rec : forall u r, (0 < u_max u)%Z -> wf_rec u r -> dec_rec u (enc_rec r) = Some r.
+Proof. exact dec_enc_rec_p. Qed.
+Print Assumptions dec_enc_rec.
+
+Theorem rec_pickle_roundtrip : forall r, rebuild_rec (reduce_rec r) = r.
+Proof. exact rec_pickle_p. Qed.
+Print Assumptions rec_pickle_roundtrip.
+
+(* ===== DataCoordinate: required-only / full / expanded, None records included, both modes =====
+   expected_coord minimal c = c without its records (the empty data ID stays expanded); expected_coord full c = c *)
+Theorem dec_enc_coord : forall u minimal c, wf_coord u c -> dec_coord u (enc_coord minimal c) = Some (expected_coord minimal c).
+Proof. exact dec_enc_coord_p. Qed.
+Print Assumptions dec_enc_coord.
+
+Theorem coord_full_form_identity : forall u c, wf_coord u c -> dec_coord u (enc_coord false c) = Some c.
+Proof. exact coord_full_form_identity_p. Qed.
+Print Assumptions coord_full_form_identity.
+
+Theorem coord_pickle_roundtrip : forall c, rebuild_coord (reduce_coord c) = c.
+Proof. exact coord_pickle_p. Qed.
+Print Assumptions coord_pickle_roundtrip.
+
+(* non-vacuity: a well-formed expanded data ID with a None record; it reads back with records["x"] still None *)
+Example wf_coord_with_none_record : wf_coord w_u w_c /\ record_state w_c "x" = 1%N.
+Proof.
+  split; [|reflexivity]. unfold wf_coord; simpl. repeat split; try reflexivity.
+  - repeat constructor; simpl; intuition discriminate.
+  - repeat constructor; simpl; intuition discriminate.
+  - intros k r [H|[H|[]]]; inversion H; subst. exists [("id", (TInt, false))]%string. repeat split; try reflexivity.
+    + repeat constructor; simpl; intuition.
+    + repeat constructor.
+Qed.
+
+(* the code before commit 0b78af8 (dec_coord_prefix: `if simple.records:`, no dict.fromkeys) violated it: reverting the
+   fix loses the None record of this well-formed data ID (records["x"]: None -> KeyError) *)
+Theorem coord_prefix_variant_refuted : exists c',
+  dec_coord_prefix w_u (enc_coord false w_c) = Some c' /\ record_state w_c "x" = 1%N /\ record_state c' "x" = 2%N.
+Proof. exact coord_prefix_variant_refuted_p. Qed.
+Print Assumptions coord_prefix_variant_refuted.
+
+(* ===== DatasetRef ===== *)
+Theorem dec_enc_ref : forall u r, wf_ref u r -> dec_ref u (enc_ref false r) = Some r.
+Proof. exact dec_enc_ref_p. Qed.
+Print Assumptions dec_enc_ref.
+
+Theorem dec_enc_ref_minimal : forall u r, aget (f_id r) (u_refs u) = Some r ->
+  component_of (t_name (f_type r)) = None -> dec_ref u (enc_ref true r) = Some r.
+Proof. exact dec_enc_ref_minimal_p. Qed.
+Print Assumptions dec_enc_ref_minimal.
+
+Theorem ref_pickle_roundtrip : forall r, g_names (c_grp (f_coord r)) = g_names (t_grp (f_type r)) ->
+  rebuild_ref (reduce_ref r) = Some r.
+Proof. exact ref_pickle_p. Qed.
+Print Assumptions ref_pickle_roundtrip.
 
 (* ===== Config keys ===== *)
 Theorem split_join : forall d ks, ks <> [] -> Forall (fun k => memc d k = false) ks -> split d (join d ks) = ks.
@@ -99,24 +151,39 @@ Theorem default_delimiter_fresh : forall alnum top d l t x k, names_default alnu
 Proof. exact default_delim_fresh. Qed.
 Print Assumptions default_delimiter_fresh.
 
-(* every reported name of an all-string key path, none of whose non-final keys ends in a backslash, is reported,
-   retrieves the value the path leads to, and is `in` the Config -- for EVERY character classification.
-   PARTIAL: list indices / non-string keys are excluded (map KS), and that the path leads to x (walk) is a premise. *)
-Theorem names_retrieve_partial : forall alnum top d l ks x,
+(* int(str(i)) = i: a list index survives being written into a name and read back *)
+Theorem index_str_int : forall i, (0 <= i)%Z -> py_int (Z_str i) = Some i.
+Proof. exact py_int_Z_str. Qed.
+Print Assumptions index_str_int.
+
+(* string-layer core: a path of string keys (no delimiter inside, no non-final key ending in a backslash) whose
+   name is not shadowed by a top-level key retrieves what the path leads to, for EVERY character classification *)
+Theorem names_retrieve_string_path : forall alnum top d l ks x,
   names_default alnum top = Some (d, l) -> alnum d = false ->
   In (map KS ks, x) (tuples (CDict top)) -> nonlast_ok ks = true ->
   walk (map KS ks) (CDict top) = Ok (Some x) ->
   In (mkname d (map KS ks), x) l /\
   lookup alnum top (mkname d (map KS ks)) = Ok x /\ contains alnum top (mkname d (map KS ks)) = Ok true.
 Proof. exact names_retrieve_partial_p. Qed.
+Print Assumptions names_retrieve_string_path.
+
+(* EVERY key reported by names() retrieves its value and is `in` the Config, for whole trees of nested dicts and lists
+   (list indices included), provided keys_ok: every dict key anywhere in the tree is a str that does not end in a
+   backslash and no dict holds two equal keys.  PARTIAL with respect to the property: the two excluded key shapes are
+   exactly the refuted cases below; `alnum d = false` is the documented fact that the chosen delimiter is not alphanumeric. *)
+Theorem names_retrieve_partial : forall alnum top d l,
+  keys_okb (CDict top) = true -> names_default alnum top = Some (d, l) -> alnum d = false ->
+  forall n x, In (n, x) l -> lookup alnum top n = Ok x /\ contains alnum top n = Ok true.
+Proof. exact names_retrieve_keys_ok_p. Qed.
 Print Assumptions names_retrieve_partial.
 
+(* {"a": {"b.c": [1, {"": "v"}]}, "→x": 0}: keys_ok, names() succeeds (the delimiter moves on to U+2193), 6 names *)
 Example names_retrieve_nonvacuous :
-  let top := [(KS [97], CDict [(KS [98; 46; 99], CInt 1%Z)])] in
-  names_default ascii_alnum top = Some (8594%N, names_with 8594%N top)
-  /\ In (map KS [[97]; [98; 46; 99]]%N, CInt 1%Z) (tuples (CDict top))
-  /\ walk (map KS [[97]; [98; 46; 99]]%N) (CDict top) = Ok (Some (CInt 1%Z)).
-Proof. vm_compute. repeat split; auto. Qed.
+  let top := [(KS [97], CDict [(KS [98; 46; 99], CList [CInt 1%Z; CDict [(KS [], CStr [118])]])]); (KS [8594; 120], CInt 0%Z)] in
+  keys_okb (CDict top) = true
+  /\ names_default ascii_alnum top = Some (8595%N, names_with 8595%N top)
+  /\ List.length (names_with 8595%N top) = 6%nat.
+Proof. vm_compute. repeat split; reflexivity. Qed.
 
 (* the property itself fails on the faithful model: a key ending in a backslash; a non-string key; an explicit delimiter *)
 Theorem names_retrieve_refuted : refutes w_backslash.
